@@ -21,6 +21,8 @@ def check(tier, seed, only=None):
     # before FIRST is arbitrary memory apart from its status word - and determine every output
     p_ctx_common.run_ctx(rep, tier, [
         ("hash_init_digest", "leaf", "per_param", "all"),
+        # every byte of the padding is written by hash_pad itself (stale partial-buffer bytes are never hashed)
+        ("hash_pad", "leaf", "all", "all"),
         ("submit", "proto", "reference_loose", "per_param"),
         ("submit", "tape", "reference_loose", "per_param"),
     ], only)
